@@ -281,6 +281,7 @@ type Param struct {
 	Desc     string
 	Schema   *Schema
 	Simple   Simple
+	Ext      Exts
 }
 
 func (p *Param) JSON() map[string]interface{} {
@@ -295,6 +296,7 @@ func (p *Param) JSON() map[string]interface{} {
 		m["schema"] = p.Schema.JSON()
 	}
 	p.Simple.put(m, false)
+	p.Ext.put(m)
 	return m
 }
 
@@ -307,9 +309,30 @@ func (p *Param) Coq() string {
 		coqpp.Str(p.Name), coqpp.Str(p.In), coqpp.Bool(p.Required), coqpp.Str(p.Desc), sc, p.Simple.Coq())
 }
 
+// Exts: vendor extensions of one object (x-... keys with scalar or array values), in a fixed order
+type ExtKV struct {
+	Key string
+	Val DVal
+}
+type Exts []ExtKV
+
+func (e Exts) put(m map[string]interface{}) {
+	for _, kv := range e {
+		m[kv.Key] = kv.Val.JSON()
+	}
+}
+func (e Exts) Coq() string {
+	xs := make([]string, len(e))
+	for i, kv := range e {
+		xs[i] = "(" + coqpp.Str(kv.Key) + ", " + kv.Val.Coq() + ")"
+	}
+	return coqpp.List(xs)
+}
+
 type Header struct {
 	Name string
 	S    Simple
+	Ext  Exts
 }
 
 type Response struct {
@@ -317,6 +340,7 @@ type Response struct {
 	Desc    string
 	Schema  *Schema
 	Headers []Header
+	BodyExt []Exts // extensions of the response schema, of its items, of their items ...
 }
 
 type Operation struct {
@@ -327,12 +351,20 @@ type Operation struct {
 	Deprecated bool
 	Params     []*Param
 	Responses  []*Response
+	Ext        Exts
+	RespExt    Exts // extensions of the responses object
 }
 
 type PathItem struct {
 	URL    string
 	Params []*Param
 	Ops    []*Operation
+	Ext    Exts
+}
+
+type Named struct {
+	Name string
+	Ext  Exts
 }
 
 type Def struct {
@@ -346,18 +378,35 @@ type Spec struct {
 	Host, BasePath, InfoDesc             string
 	Paths                                []*PathItem
 	Defs                                 []Def
+	// vendor extensions: root, info, contact and license (nil = the object is absent), tags, security definitions
+	Ext, InfoExt        Exts
+	Contact, License    *Exts
+	TagDecls, SecDefs   []Named
 }
 
 func (r *Response) json() map[string]interface{} {
 	m := map[string]interface{}{"description": r.Desc}
 	if r.Schema != nil {
-		m["schema"] = r.Schema.JSON()
+		sm := r.Schema.JSON()
+		m["schema"] = sm
+		cur, lvl := sm, r.Schema
+		for i := 0; lvl != nil; i++ {
+			if i < len(r.BodyExt) && lvl.Ref == "" {
+				r.BodyExt[i].put(cur)
+			}
+			nx, _ := cur["items"].(map[string]interface{})
+			if nx == nil {
+				break
+			}
+			cur, lvl = nx, lvl.Items
+		}
 	}
 	if len(r.Headers) > 0 {
 		hs := map[string]interface{}{}
 		for _, h := range r.Headers {
 			hm := map[string]interface{}{}
 			h.S.put(hm, false)
+			h.Ext.put(hm)
 			hs[h.Name] = hm
 		}
 		m["headers"] = hs
@@ -365,12 +414,57 @@ func (r *Response) json() map[string]interface{} {
 	return m
 }
 
+// bodyChain: the response schema and its items chain with the extensions that are rendered at each level
+func (r *Response) bodyChain() string {
+	var xs []string
+	lvl := r.Schema
+	for i := 0; lvl != nil; i++ {
+		e := Exts{}
+		if i < len(r.BodyExt) && lvl.Ref == "" {
+			e = r.BodyExt[i]
+		}
+		xs = append(xs, "("+lvl.Coq()+", "+e.Coq()+")")
+		lvl = lvl.Items
+	}
+	return coqpp.List(xs)
+}
+
 func (sp *Spec) JSONMap() map[string]interface{} {
 	info := map[string]interface{}{"title": "t", "version": "1.0"}
 	if sp.InfoDesc != "" {
 		info["description"] = sp.InfoDesc
 	}
+	sp.InfoExt.put(info)
+	if sp.Contact != nil {
+		c := map[string]interface{}{"name": "the contact"}
+		sp.Contact.put(c)
+		info["contact"] = c
+	}
+	if sp.License != nil {
+		l := map[string]interface{}{"name": "the license"}
+		sp.License.put(l)
+		info["license"] = l
+	}
 	m := map[string]interface{}{"swagger": "2.0", "info": info}
+	sp.Ext.put(m)
+	if len(sp.TagDecls) > 0 {
+		ts := make([]interface{}, len(sp.TagDecls))
+		for i, tg := range sp.TagDecls {
+			tm := map[string]interface{}{"name": tg.Name}
+			tg.Ext.put(tm)
+			ts[i] = tm
+		}
+		m["tags"] = ts
+	}
+	if len(sp.SecDefs) > 0 {
+		sd := map[string]interface{}{}
+		for _, d := range sp.SecDefs {
+			dm := map[string]interface{}{"type": "apiKey", "in": "header", "name": "X-" + d.Name}
+			d.Ext.put(dm)
+			sd[d.Name] = dm
+		}
+		m["securityDefinitions"] = sd
+	}
 	if sp.HasConsumes {
 		m["consumes"] = nonNil(sp.Consumes)
 	}
@@ -389,6 +483,7 @@ func (sp *Spec) JSONMap() map[string]interface{} {
 	paths := map[string]interface{}{}
 	for _, pi := range sp.Paths {
 		pm := map[string]interface{}{}
+		pi.Ext.put(pm)
 		if len(pi.Params) > 0 {
 			ps := make([]interface{}, len(pi.Params))
 			for i, p := range pi.Params {
@@ -418,6 +513,8 @@ func (sp *Spec) JSONMap() map[string]interface{} {
 			for _, r := range op.Responses {
 				rs[strconv.Itoa(r.Code)] = r.json()
 			}
+			op.RespExt.put(rs)
+			op.Ext.put(om)
 			om["responses"] = rs
 			pm[op.Method] = om
 		}
@@ -486,6 +583,48 @@ func (sp *Spec) Coq() string {
 	return fmt.Sprintf("{| sw_consumes := %s; sw_produces := %s; sw_schemes := %s; sw_host := %s; sw_basepath := %s; sw_info_desc := %s; sw_paths := %s; sw_defs := %s |}",
 		coqpp.OptStrList(sp.Consumes, sp.HasConsumes), coqpp.OptStrList(sp.Produces, sp.HasProduces), coqpp.OptStrList(sp.Schemes, sp.HasSchemes),
 		coqpp.Str(sp.Host), coqpp.Str(sp.BasePath), coqpp.Str(sp.InfoDesc), coqpp.List(paths), coqpp.List(defs))
+}
+
+// XCoq: the extension view of the document (xdoc of Tools/DiffExt.v)
+func (sp *Spec) XCoq() string {
+	pe := func(ps []*Param) string {
+		xs := make([]string, len(ps))
+		for i, p := range ps {
+			xs[i] = "(" + p.Coq() + ", " + p.Ext.Coq() + ")"
+		}
+		return coqpp.List(xs)
+	}
+	named := func(ns []Named) string {
+		xs := make([]string, len(ns))
+		for i, n := range ns {
+			xs[i] = "(" + coqpp.Str(n.Name) + ", " + n.Ext.Coq() + ")"
+		}
+		return coqpp.List(xs)
+	}
+	opt := func(e *Exts) string {
+		if e == nil {
+			return "None"
+		}
+		return "(Some " + e.Coq() + ")"
+	}
+	paths := make([]string, len(sp.Paths))
+	for i, pi := range sp.Paths {
+		ops := make([]string, len(pi.Ops))
+		for j, op := range pi.Ops {
+			rs := make([]string, len(op.Responses))
+			for k, r := range op.Responses {
+				hs := make([]string, len(r.Headers))
+				for l, h := range r.Headers {
+					hs[l] = "(" + coqpp.Str(h.Name) + ", " + h.Ext.Coq() + ")"
+				}
+				rs[k] = fmt.Sprintf("(%s, {| xr_headers := %s; xr_body := %s |})", coqpp.Z(int64(r.Code)), coqpp.List(hs), r.bodyChain())
+			}
+			ops[j] = fmt.Sprintf("(%s, {| xo_ext := %s; xo_resp_ext := %s; xo_params := %s; xo_resps := %s |})", coqpp.Str(op.Method), op.Ext.Coq(), op.RespExt.Coq(), pe(op.Params), coqpp.List(rs))
+		}
+		paths[i] = fmt.Sprintf("(%s, {| xi_ext := %s; xi_params := %s; xi_ops := %s |})", coqpp.Str(pi.URL), pi.Ext.Coq(), pe(pi.Params), coqpp.List(ops))
+	}
+	return fmt.Sprintf("{| xd_ext := %s; xd_info := %s; xd_contact := %s; xd_license := %s; xd_tags := %s; xd_secdefs := %s; xd_paths := %s |}",
+		sp.Ext.Coq(), sp.InfoExt.Coq(), opt(sp.Contact), opt(sp.License), named(sp.TagDecls), named(sp.SecDefs), coqpp.List(paths))
 }
 
 // Clone deep-copies a spec through its own structure.
